@@ -230,6 +230,49 @@ def main(tier: str) -> int:
                                          {"fn": "binomial", "clause": "structure", "optimizer": cls.__name__})
                                 break
 
+    # ---- jDE: the F / CR that scale each donor are THIS generation's self-adapted values, and an
+    # accepted individual carries exactly the parameters that produced its trial
+    for strategy in ("rand_1", "best_2", "current_to_best_1"):
+        gens = []
+        o = jDE(fitness_function=lambda x: np.sum(np.asarray(x) ** 2, axis=1), iters=10, pop_size=9, left_border=-3.0, right_border=3.0, num_variables=2,
+                mutation=strategy, t_F=0.5, t_CR=0.5, minimization=True, random_state=chk.seed + 3)
+        oF, oCR, oInd, oNew = o._get_mutate_F, o._get_mutate_CR, o._get_new_individ_g, o._get_new_population
+
+        def wF():
+            v = oF()
+            gens.append({"F": v.copy(), "CR": None, "used": [], "before": (o._F.copy(), o._CR.copy(), o._fitness_i.copy())})
+            return v
+
+        def wCR():
+            v = oCR()
+            gens[-1]["CR"] = v.copy()
+            return v
+
+        def wInd(individ_g, F, CR):
+            gens[-1]["used"].append((float(F), float(CR)))
+            return oInd(individ_g=individ_g, F=F, CR=CR)
+
+        def wNew():
+            oNew()
+            gens[-1]["after"] = (o._F.copy(), o._CR.copy(), o._fitness_i.copy())
+        o._get_mutate_F, o._get_mutate_CR, o._get_new_individ_g, o._get_new_population = wF, wCR, wInd, wNew
+        o.fit()
+        chk.count("jde_parameters")
+        for gi, g in enumerate(gens):
+            dd = {"optimizer": "jDE", "strategy": strategy, "generation": gi + 1}
+            chk.case(("jde", strategy, gi))
+            usedF = [u[0] for u in g["used"]]
+            usedCR = [u[1] for u in g["used"]]
+            if usedF != [float(v) for v in g["F"]] or usedCR != [float(v) for v in g["CR"]]:
+                chk.fail("the F / CR handed to the donor strategy are not this generation's self-adapted values (donor not scaled by the current F)",
+                         {**dd, "used_F": usedF[:4], "self_adapted_F": [float(v) for v in g["F"][:4]]}, {"fn": "jDE", "clause": "current_F"})
+                break
+            if "after" in g:
+                changed = g["after"][2] != g["before"][2]
+                if any(changed[i] and (g["after"][0][i] != usedF[i] or g["after"][1][i] != usedCR[i]) for i in range(len(usedF))):
+                    chk.fail("an individual replaced by its trial does not carry the F / CR that produced the trial", dd, {"fn": "jDE", "clause": "carried_F"})
+                    break
+
     try:
         outs = C.lean_driver([json.dumps(o) for o in ops])
     except Exception as e:
